@@ -1,15 +1,14 @@
 """C02 — changes reach a target's config and device in transaction-log order (DESIGN.md section 6, C02)."""
-import driver, ts
+from props import proto
 
 
 def run(ctx):
     quick = ctx.tier == 'quick'
+    d = 24 if quick else 40
     cfg = dict(nt=1, nx=2, sync=False, rollback=False, faults=False, crash=False)
-    depth = 24 if quick else 40
-    queries = [('reach', 22, ['reach:tx1-committed']),
-               ('bad', depth, ['bad:c02-committed-index-decreased']),
-               ('bad', depth, ['bad:c02-applied-ahead-of-committed'])]
-    res, t = ts.run_protocol(ctx, driver, '1x2', cfg, queries, contracts=['c02', 'c01'], timeout_s=600 if quick else 3000)
-    ts.post_protocol(ctx, driver, res)
-    driver.write_evidence(ctx, 'model_checking', 'transition relation extracted from the real reconcilers; step contracts + BMC',
-                          {'config': cfg, 'bmc_depth': depth}, [])
+    bad = ['bad:c02-committed-index-decreased', 'bad:c02-applied-ahead-of-committed', 'bad:c02-merge-out-of-order',
+           'bad:c02-send-before-merge', 'bad:c02-send-out-of-order', 'bad:range']
+    queries = [('reach', 22, ['reach:tx1-committed']), ('reach', 26, ['reach:tx1-applied'])] + [('bad', d, [b]) for b in bad]
+    proto.run(ctx, 'C02', [('1x2', cfg, queries, ['c02'])],
+              'transition relation of the real v2 transaction/proposal reconcilers; ordering contracts on one step from any state '
+              '+ BMC of the ghost order monitors from the initial state', {'bmc_depth': d})
